@@ -1,7 +1,7 @@
 (** Entry points of the executable model used by the correspondence driver (ocaml/modeldrv.ml).
     Every entry point maps a list of byte strings (the case's arguments) to one line of text. *)
 From Coq Require Import List NArith ZArith Bool String.
-From BL Require Import Base.Bytes Reader.Entry Reader.SegMap Reader.EventStream Reader.Filter Render.Pretty Render.Time Queue.QueueModel.
+From BL Require Import Base.Bytes Reader.Entry Reader.SegMap Reader.EventStream Reader.Filter Render.Pretty Render.Time Queue.QueueModel Session.SessionModel.
 Import ListNotations.
 Local Open Scope N_scope.
 
@@ -139,3 +139,19 @@ Fixpoint api_queue_loop (s : qstate) (ops : list qop) : list bytes :=
   | o :: r => let (s', out) := qstep s o in (qout_text out ++ str "/" ++ qstate_text s') :: api_queue_loop s' r
   end.
 Definition api_queue (c : Z) (ops : list qop) : bytes := join sp (api_queue_loop (init c) ops).
+
+(** * the session: one token per operation *)
+Definition fixed_cs : clocksync := mkCS 0 1000000000 0 0 (str "UTC").
+Definition sout_text (o : sout) : bytes :=
+  match o with
+  | SoNone => str "-"
+  | SoBool true => str "b1" | SoBool false => str "b0"
+  | SoId id => str "i" ++ dec id
+  | SoWrites ws r => str "W" ++ join (str ",") (map hex ws) ++ str ";" ++
+      join (str ",") [dec (cr_bytes r); dec (cr_total r); dec (cr_polled r); dec (cr_removed r)]
+  end.
+Definition api_session (fence : bool) (ops : list sop) : bytes :=
+  join sp (map sout_text (snd (srun fence (sess_init fixed_cs) ops))).
+(** a source derived from a small number, the same way the driver builds it *)
+Definition site_source (n sev : N) : source :=
+  mkSource 0 sev (str "cat" ++ dec n) (str "fn" ++ dec n) (str "file" ++ dec n ++ str ".cpp") (100 + n) (str "msg " ++ dec n ++ str " {}") (str "i").
